@@ -36,10 +36,15 @@ from vlib.monitor import OpTimeout, Tol, allclose, fmt_exc, time_limit
 PROPERTY = "C19"
 TIERS = {"quick": {"shards": 8, "budget_s": 30}, "thorough": {"shards": 16, "budget_s": 400}}
 RULE = (
-    "twin history: (container xy/indexed/hist | fit xy/indexed/hist/unbinned x {iminuit, scipy} | nexus graph) + valid setup + valid op word "
+    "twin history: (container xy/indexed/hist | fit xy/indexed/hist/unbinned x {iminuit, scipy} | MultiFit of 2-4 xy/indexed chi2 members, sources shared by "
+    "fits='all' or a list, optionally one member of another size outside the sharing group | nexus graph) + valid setup + valid op word "
     "(<=8 ops quick / <=20 thorough, reads anywhere, optional do_fit) + ONE malformed variant of a valid call (one operator per class of the statement, "
     "see OPERATORS/VARIANTS) issued on twin A only at a random position, optionally followed by the valid original on both; constructor-time classes "
-    "as single calls. First cases of every shard enumerate every required (operator, target) pair and every (operator, variant), then random. "
+    "as single calls. Poisson data: negative entry, non-integer entry, non-integer counts of large magnitude (1e3..1e7, one entry or all entries large). "
+    "Two conditional operators (a raise is not demanded, 'unchanged if rejected' is): HistContainer.set_bins with heights that do not fit the binning "
+    "(followed by fill / rebin), a shared source whose name is taken in a later / the first member. First cases of every shard enumerate every required "
+    "(operator, target) pair, every required (operator, target, variant) triple (unknown parameter: variant x backend; Poisson data: variant x entry point; "
+    "conditional operators; shared size mismatch) and every (operator, variant), then random. "
     "non-trivial = the malformed call was issued (valid variant accepted / history reached the position); distinct by case hash"
 )
 ASSUMPTIONS = [
@@ -49,6 +54,10 @@ ASSUMPTIONS = [
     "valid calls of the history that the clean twin B rejects are generator errors: the rest of that history is discarded (counted), never a verdict",
     "a Function node handed to Nexus.add(existing_behavior='replace') was wired to its parameters by its own constructor; only nodes registered in the "
     "nexus are part of the graph observables",
+    "sources shared between members of a MultiFit are absolute (a relative shared source demands identical reference data in all members) and are given with "
+    "axis 'x'/'y'/None; a source of a single indexed member is declared on the member fit (MultiFit.add_error(fits=<int>) passes an axis keyword on)",
+    "conditional operators (CONDITIONAL): the malformation is not in the list of the statement, so an accepted call is no violation (counted, history ends); a taken "
+    "name means taken in the container (data / model) the shared source refers to",
     "twins run in one process on the same inputs: EXACT/LINALG agreement is expected; after do_fit on both, parameters agree within 1e-3 sigma, cost within 1e-3",
 ]
 _HC = "kafe2.fit.histogram.container"
